@@ -174,6 +174,7 @@ var labelRules = []struct{ frag, label string }{
 	{".checkKeyAndReelect", "check"},
 	{".attemptAcquire", "acquire"}, // also matches attemptAcquireWithRetry
 	{".watchLoop", "watch"},
+	{".watchOnce", "watch"},
 	{".StopWithContext", "shutdown"},
 	{".Stop", "shutdown"},
 	{".CalculateBackoff", "backoff"},
